@@ -962,7 +962,7 @@ func typeAssert(instr *ssa.TypeAssert, itf iface) value {
 
 	if err != "" {
 		if !instr.CommaOk {
-			panic(err)
+			panic(runtimeErr(err))
 		}
 		return tuple{zero(instr.AssertedType), false}
 	}
